@@ -44,6 +44,9 @@ var names = []model.UseCaseNameType{
 	model.UseCaseNameTypeMonitoringOfPowerConsumption,
 	model.UseCaseNameTypeEVCommissioningAndConfiguration,
 	model.UseCaseNameTypeCoordinatedEVCharging,
+	// names are texts and compared as such: one that differs from a known name in the capitalisation only
+	// (as it varies between releases of the use case documents) is another name
+	model.UseCaseNameType("EVCommissioningAndConfiguration"),
 }
 
 var versions = []string{"1.0.0", "1.0.1", "1.1.0", "2.0.0"}
